@@ -309,6 +309,14 @@ example : (divisionsLayer [0, 3, 3, 5] [0, 2, 4, 5] false).map (layerOK [0, 3, 3
 example : (divisionsLayer [5, 10] [0, 2, 10, 12] true).map (layerOK [5, 10] [0, 2, 10, 12]) = some true := by decide
 example : (divisionsLayer [0, 4, 4] [0, 2, 4, 4] false).map (layerOK [0, 4, 4] [0, 2, 4, 4]) = some true := by decide
 example : KeySorted (fun (r : Nat × Nat) => r.1) [(3, 2), (5, 3), (5, 4)] := by unfold KeySorted; decide
+/-- witness of the defect repaired in /repo 5d1a6bb (found through the certificate): a single-label frame
+    `a = (2, 2)` repartitioned with `force` to `(0, 1, 2, 2)`. Before the fix the temporary divisions started at
+    `a[0]` and came out as `(2, 1, 2, 2)`; only the first (empty) slice was ever used and every row was lost.
+    With the temporary divisions starting at `b[0]` the layer is certified and the rows arrive in the last partition. -/
+example : (divisionsLayer [2, 2] [0, 1, 2, 2] true).map (fun L => (L.c, L.out, layerOK [2, 2] [0, 1, 2, 2] L)) =
+    some ([0, 1, 2, 2], [[0], [1], [2]], true) := by decide
+example : repartitionDivisions (fun (r : Nat × Nat) => r.1) [[(2, 0), (2, 1), (2, 2)]] [2, 2] [0, 1, 2, 2] true =
+    some [[], [], [(2, 0), (2, 1), (2, 2)]] := by decide
 example : repartitionDivisions (fun (r : Nat × Nat) => r.1) [[(0, 0), (1, 1)], [], [(3, 2), (5, 3), (5, 4)]]
     [0, 3, 3, 5] [0, 2, 4, 5] false = some [[(0, 0), (1, 1)], [(3, 2)], [(5, 3), (5, 4)]] := by decide
 
